@@ -15,7 +15,7 @@ the repository suite passes with the patch, the demonstration fails with the pat
 (`tools/seedverify.sh`); the patch was applied to /repo, the checks were run and /repo was restored
 (`tools/seedrun.sh`; `tools/seedregress.sh` repeats this for all stored seeds). {n} changes are stored
 under `seeded/`; {missed} of them were missed by the first version of the owning check and led to the
-strengthening described in their `meta.json` (`note`) and in section 7; all {n} are caught now (last full regression, after round 17: 292 of 292 (seed, check) pairs over 246 seeds report a violation; after round 18 a partial regression over the seven checks changed since and all round-18 seeds: 119 of 119; earlier full regressions: 112/112 after round 4, 168/168 after round 7).
+strengthening described in their `meta.json` (`note`) and in section 7; all {n} are caught now (last full regression, after round 17: 292 of 292 (seed, check) pairs over 246 seeds report a violation; after round 18 a partial regression over the seven checks changed since and all round-18 seeds: 119 of 119, after round 19 over C19 (the only check changed): all of its seeds; earlier full regressions: 112/112 after round 4, 168/168 after round 7).
 
 **Cross-over seeds.** Some changes were written against one property but violate a clause that
 another property owns (a sentence-update defect written for C02 or C10, a parse-content defect
